@@ -1,6 +1,6 @@
 //go:build verif
 
-package hpke
+package hpke_test
 
 // C07 units refcheck (binds the reference model to authoritative data before it is used
 // as an oracle) and vectors (runs the library on the same authoritative vectors, which is
@@ -13,6 +13,7 @@ import (
 	"crypto/sha512"
 	"errors"
 	"fmt"
+	. "github.com/cloudflare/circl/hpke"
 	"hash"
 	"io"
 	"sync"
@@ -264,13 +265,26 @@ func c07RunVector(v *c07Vector, im c07Impl) (bad []c07Mismatch, compared int) {
 		fail("SetupR", "receiver setup: %v", err)
 		return
 	}
+	if _, isLib := im.(c07LibImpl); isLib && v.SharedSecret != "" {
+		// the KEM's shared secret through the exported kem.Scheme interface
+		ssS, encS, ssR, err := c07LibKEMSecrets(KEM(v.KemID), v.Mode, pkR, skS, v.ikmE(), skR, pkS, c07Unhex(v.Enc))
+		if err != nil {
+			fail("kem.Scheme", "KEM-level encapsulation: %v", err)
+		} else {
+			cmp("kem.enc", encS, v.Enc)
+			cmp("kem.sender.shared_secret", ssS, v.SharedSecret)
+			cmp("kem.receiver.shared_secret", ssR, v.SharedSecret)
+		}
+	}
 	for _, side := range []struct {
 		n string
 		f c07Fields
 	}{{"sender", cs.fields()}, {"receiver", cr.fields()}} {
-		cmp(side.n+".shared_secret", side.f.ss, v.SharedSecret)
-		cmp(side.n+".key_schedule_context", side.f.ksc, v.KSC)
-		cmp(side.n+".secret", side.f.secret, v.Secret)
+		if side.f.internals { // intermediate values: only with the optional in-package read-out
+			cmp(side.n+".shared_secret", side.f.ss, v.SharedSecret)
+			cmp(side.n+".key_schedule_context", side.f.ksc, v.KSC)
+			cmp(side.n+".secret", side.f.secret, v.Secret)
+		}
 		cmp(side.n+".key", side.f.key, v.Key)
 		cmp(side.n+".base_nonce", side.f.baseNonce, v.BaseNonce)
 		cmp(side.n+".exporter_secret", side.f.exp, v.ExporterSecret)
